@@ -4,5 +4,6 @@ CONSTANTS
   DevAvg = FALSE
   DevArr = FALSE
   DevStale = FALSE
+  DevEmpty = FALSE
 INVARIANTS LengthInv StepOK WitnessPrint ActionPrint
 CHECK_DEADLOCK FALSE
